@@ -48,7 +48,7 @@ theorem frameDesc_cons {ts : List Token} {g : SpanKey → Option Span} {env : En
   have h2 := h.2
   show (match f.value with
     | .element id => StartFacts ts g env stack path id (k :: f.rkids) ∧
-        stack.head? = some (declsOf (k :: f.rkids).reverse)
+        stack.head? = some (sdDeclsOf (k :: f.rkids).reverse)
     | _ => stack = baseStack)
   cases hv : f.value with
   | element id =>
@@ -68,7 +68,7 @@ theorem desc_leaf {ts : List Token} {g : SpanKey → Option Span} {env : Env} {s
 /-! ### `add` of a leaf -/
 
 theorem addLeaf_dinv {ts done done' : List Token} {b : Builder} (h : DInv ts done b)
-    (hpre : done' <+: ts) (v : Value) (m' : SpanMap) (env' : Env) (he : EnvApp b.env env')
+    (hpre : done' <+: ts) (v : Value) (m' : SpanMap) (env' : Env) (he : SdEnvApp b.env env')
     (hattr : ∀ n w, v ≠ .attribute n w) (hns : ∀ p n, v ≠ .namespace p n)
     (hget : ∀ k : SpanKey, k.path ≠ b.curPath ++ [b.cur.rkids.length] → m'.get k = b.spans.get k)
     (hkeys : ∀ k, HasKey m' k → HasKey b.spans k ∨ k.path = b.curPath ++ [b.cur.rkids.length])
@@ -134,7 +134,7 @@ theorem mergeText_dinv {ts done : List Token} {b b' : Builder} (h : DInv ts done
   have hcp : b.curPath = framesPath b.parents := rfl
   have hpfx : PfxDesc ts b'.spans.get b'.env (b'.cur :: b'.parents) b'.openPrefixes := by
     rw [hc, hp, henv, hop]
-    refine pfxDesc_head (f := b.cur) rfl (pfxDesc_mono (EnvApp.refl _) _ _ (fun k hk => hkey k (fun hkk => ?_)) h.pfx)
+    refine pfxDesc_head (f := b.cur) rfl (pfxDesc_mono (SdEnvApp.refl _) _ _ (fun k hk => hkey k (fun hkk => ?_)) h.pfx)
     refine not_ownKey_of_length (b.cur :: b.parents) k ?_ hk
     rw [hkk]
     simp [Builder.curPath]
@@ -149,10 +149,10 @@ theorem mergeText_dinv {ts done : List Token} {b b' : Builder} (h : DInv ts done
       · -- the text node itself
         rw [Desc] at hhead ⊢
         refine ⟨by rw [← hcp]; exact hopen.toFacts hpre, ?_⟩
-        refine descList_mono (EnvApp.refl _) ks _ _ 0 (fun k j hk => hkey k (fun hkk => ?_)) hhead.2
+        refine descList_mono (SdEnvApp.refl _) ks _ _ 0 (fun k j hk => hkey k (fun hkk => ?_)) hhead.2
         rw [hkk, hcp] at hk
         exact snoc_not_prefix_self _ j hk
-      · refine descR_mono (EnvApp.refl _) more (fun k ⟨i, hi, hpf⟩ => hkey k (fun hkk => ?_)) hmore
+      · refine descR_mono (SdEnvApp.refl _) more (fun k ⟨i, hi, hpf⟩ => hkey k (fun hkk => ?_)) hmore
         rw [hkk, hcp] at hpf
         have := prefix_snoc_ne (r := []) hpf (List.prefix_refl _)
         omega
@@ -160,16 +160,16 @@ theorem mergeText_dinv {ts done : List Token} {b b' : Builder} (h : DInv ts done
         show (match b.cur.value with
           | .element id => StartFacts ts b'.spans.get b.env b.nsStack (framesPath b.parents) id
               (.node (.text (s ++ content)) ks :: more) ∧
-              b.nsStack.head? = some (declsOf (Tree.node (.text (s ++ content)) ks :: more).reverse)
+              b.nsStack.head? = some (sdDeclsOf (Tree.node (.text (s ++ content)) ks :: more).reverse)
           | _ => b.nsStack = baseStack)
         cases hvv : b.cur.value with
         | element id =>
           rw [hvv] at h2
-          have hd : declsOf (Tree.node (.text (s ++ content)) ks :: more).reverse = declsOf b.cur.rkids.reverse := by
+          have hd : sdDeclsOf (Tree.node (.text (s ++ content)) ks :: more).reverse = sdDeclsOf b.cur.rkids.reverse := by
             rw [hr, declsOf_reverse_cons _ (by intro p n hh; cases hh),
               declsOf_reverse_cons _ (by intro p n hh; cases hh)]
           refine ⟨?_, by rw [hd]; exact h2.2⟩
-          have hs' := h2.1.mono (g' := b'.spans.get) (EnvApp.refl _) (fun kind _ => hkey _ (fun hkk => by
+          have hs' := h2.1.mono (g' := b'.spans.get) (SdEnvApp.refl _) (fun kind _ => hkey _ (fun hkk => by
             have := congrArg (fun k : SpanKey => k.path.length) hkk
             simp [hcp] at this))
           refine ⟨hs'.1, fun x hx n v hxv => ?_⟩
@@ -178,7 +178,7 @@ theorem mergeText_dinv {ts done : List Token} {b b' : Builder} (h : DInv ts done
           · cases hxv
           · exact hs'.2 x (by rw [hr]; simp [hx]) n v hxv
         | _ => rw [hvv] at h2; exact h2
-    · refine stackDesc_mono (EnvApp.refl _) b.parents _ (fun k hk => hkey k (fun hkk => ?_)) hpar
+    · refine stackDesc_mono (SdEnvApp.refl _) b.parents _ (fun k hk => hkey k (fun hkk => ?_)) hpar
       exact not_prot_new b.parents k [more.length] (by rw [hkk, hcp]) hk
   · intro s' ks' more' hr'
     rw [hc] at hr'
@@ -204,14 +204,14 @@ theorem desc_close {ts : List Token} {g : SpanKey → Option Span} {env : Env} {
     (hend : EndFacts ts g path) : Desc ts g env stack.tail path f.close := by
   have h2 := h.2
   rw [hv] at h2
-  have hst : declsOf f.rkids.reverse :: stack.tail = stack := by
+  have hst : sdDeclsOf f.rkids.reverse :: stack.tail = stack := by
     cases hs : stack with
     | nil => rw [hs] at h2; simp at h2
     | cons d rest => rw [hs] at h2; simp only [List.head?_cons, Option.some.injEq] at h2; rw [h2.2]; rfl
   unfold Frame.close
   rw [Desc, hv]
-  show NodeFacts ts g env (declsOf f.rkids.reverse :: stack.tail) path (.element id) f.rkids.reverse ∧
-    Desc.descList ts g env (declsOf f.rkids.reverse :: stack.tail) path 0 f.rkids.reverse
+  show NodeFacts ts g env (sdDeclsOf f.rkids.reverse :: stack.tail) path (.element id) f.rkids.reverse ∧
+    Desc.descList ts g env (sdDeclsOf f.rkids.reverse :: stack.tail) path 0 f.rkids.reverse
   rw [hst]
   exact ⟨⟨h2.1.of_perm (fun k hk => by simpa using hk), hend⟩, descList_of_R stack path _ h.1⟩
 
@@ -221,7 +221,7 @@ theorem leave_dinv {ts done done' : List Token} {b b1 b' : Builder} (h : DInv ts
     {id : Nat} (hel : b.cur.value = .element id) {e : ElementEnd} {sp : StrSpan}
     (htok : Token.elementEnd e sp ∈ ts) (hne : e ≠ .open)
     (hcur : b1.cur = b.cur) (hpar : b1.parents = b.parents) (hsp : b1.spans = b.spans) (heb : b1.eb = b.eb)
-    (hns : b1.nsStack = b.nsStack.tail) (hop : b1.openPrefixes = b.openPrefixes.tail) (he : EnvApp b.env b1.env)
+    (hns : b1.nsStack = b.nsStack.tail) (hop : b1.openPrefixes = b.openPrefixes.tail) (he : SdEnvApp b.env b1.env)
     (hlink : ∀ p l, e = .close p l →
       b.openPrefixes.head? = some p.text ∧ ∃ ns, b1.env.names[id]? = some (l.text, ns))
     (hr : b1.leave b.curPath sp = .ok b') : DInv ts done' b' := by
